@@ -37,11 +37,11 @@ PURE_OS = {"os.path.join", "os.path.basename", "os.path.dirname", "os.path.sep",
            "os.path.expanduser", "os.getcwd"}
 SENSITIVE_BUILTINS = {"open", "exec", "eval", "compile", "__import__", "input", "breakpoint"}
 # the exception the property grants: the interpreter itself reads module sources
-EXEMPT = {
-    ("NodeRequire.evaluate", "pkgutil.get_data"),
-    ("NodeRequire.evaluate", "os.path.exists"),
-    ("NodeRequire.evaluate", "open"),
-    ("get_base_environment", "pkgutil.get_data"),
+# (owner, operation): owner is a class (any of its methods) or a module function; helpers whose only callers are
+# exempt owners inherit the exemption (computed from the call graph in run())
+EXEMPT_OPS = {
+    "NodeRequire": {"pkgutil.get_data", "os.path.exists", "open"},
+    "get_base_environment": {"pkgutil.get_data"},
 }
 FLAG = "checkerlang_secure_mode"
 
@@ -130,12 +130,23 @@ def run(ctx):
                       f"import of unaudited module '{origin}': every call into it is treated as a "
                       f"sensitive sink", expr=f"import {origin}", site=f"{m.rel}: import {origin}")
     refl = reflection_sites(model)
-    ctx.ob("C09.noreflect", "whole package: getattr/setattr/eval/exec/__import__/globals/__dict__ ...",
+    loaders = {"eval", "exec", "compile", "__import__", "breakpoint"}
+    hard = [(f, n, what) for f, n, what in refl if what in loaders or f is None]
+    soft = [(f, n, what) for f, n, what in refl if not (what in loaders or f is None)]
+    ctx.ob("C09.noreflect", "whole package: eval/exec/compile/__import__/importlib (code loading) absent; "
+           "getattr only with statically known names; no setattr/globals/__dict__ ...",
            not refl, f"{len(refl)} site(s)")
-    for f, n, what in refl:
+    for f, n, what in hard:
         ctx.fail("C09.noreflect", f if f else "module", n if f else None,
-                 f"reflection ({what}) defeats the call-graph argument", expr=what,
+                 f"{what}: host code loading is itself a way around the secure-mode gate", expr=what,
                  file=(f.file if f else n.rel))
+    # reflection whose target cannot be told statically does not violate the property by itself, but it removes
+    # the ground under 'unreachable in the call graph means unreachable': the analysis refuses (exit 2)
+    ctx.pending_refusal = None
+    if soft:
+        f, n, what = soft[0]
+        ctx.pending_refusal = (f.qual, f"reflection ({what} at {f.file}:{getattr(n, 'lineno', 0)}) with a target that "
+                               f"cannot be told statically: the call-graph argument is not available")
 
     # ---------------------------------------------------------------- flag attribute discipline
     vf_init = vf.methods.get("__init__")
@@ -178,10 +189,34 @@ def run(ctx):
             return False
         return True
 
+    callers = {}
+    for g_ in model.all_funcs(True):
+        for r_ in cg.refs(g_):
+            for t_ in cg.targets(g_, r_):
+                callers.setdefault(t_, set()).add(g_)
+    owner_memo = {}
+
+    def exempt_owner(f, depth=0):
+        """the exempt owner a function belongs to: directly, or because all its callers belong to the same one"""
+        if f in owner_memo:
+            return owner_memo[f]
+        owner_memo[f] = None
+        own = f.cls.name if f.cls is not None and f.cls.name in EXEMPT_OPS else f.qual if f.qual in EXEMPT_OPS else None
+        if own is None and depth < 3 and callers.get(f):
+            owners = {exempt_owner(c, depth + 1) for c in callers[f] if c is not f}
+            if len(owners) == 1 and None not in owners:
+                own = owners.pop()
+        owner_memo[f] = own
+        return own
+
+    def is_exempt(f, name):
+        own = exempt_owner(f)
+        return own is not None and name in EXEMPT_OPS[own]
+
     def unexempt_sinks(f):
         out = []
         for r, name in sinks_in.get(f, []):
-            if (f.qual, name) in EXEMPT:
+            if is_exempt(f, name):
                 if name == "open" and not _read_only_open(r):
                     out.append((r, name + " (not read-only)"))
                 continue
@@ -226,7 +261,7 @@ def run(ctx):
         if f.cls is not None and f.cls.name in insecure:
             where = "insecure built-in"
             ok = True
-        elif (f.qual, name) in EXEMPT:
+        elif is_exempt(f, name):
             ok = name != "open" or _read_only_open(r)
             where = "module-source reader (exempt)"
         elif f not in seen:
@@ -248,6 +283,8 @@ def run(ctx):
     gate(ctx, cg, insecure, subclasses)
     flag(ctx, cg)
     ckl(ctx, insecure)
+    if ctx.pending_refusal and not ctx.findings:
+        ctx.broken(*ctx.pending_refusal)
 
 
 def _read_only_open(ref):
@@ -399,6 +436,17 @@ def gate(ctx, cg, insecure, subclasses):
             par = parents.get(id(call))
             via_gate = (isinstance(par, ast.Call) and isinstance(par.func, ast.Name)
                         and par.func.id == "bind_native_fun" and len(par.args) >= 2 and par.args[1] is call)
+            if not via_gate and f.name == "<module>":
+                dv = _deferred_in_gate_table(model, f, call, parents, bn)
+                if dv is True:
+                    ctx.ob("C09.gate.branch", f"{cname}() deferred in a table that only bind_native hands to "
+                           f"bind_native_fun", True)
+                    continue
+                elif dv is None and cname in insecure:
+                    ctx.pending_refusal = ctx.pending_refusal or (
+                        "functions.py", f"insecure built-in {cname} is constructed in a deferred expression at module "
+                                        f"level (line {call.lineno}) whose callers cannot be told")
+                    continue
             if f is bn:
                 ctx.check("C09.gate.branch", f, call, via_gate,
                           f"bind_native constructs {cname} without handing it to bind_native_fun",
@@ -409,11 +457,21 @@ def gate(ctx, cg, insecure, subclasses):
                           f"insecure built-in {cname} constructed outside the gate and not under "
                           f"`if not secure`")
     # bind_native: literal dispatch table, for C09.ckl
-    table = set()
+    from .common import native_registry, resolve_static_call
+    table = set(native_registry(model, P))
+    binders = [bn]
     for n in ast.walk(bn.node):
-        if isinstance(n, ast.Compare) and isinstance(n.left, ast.Name) and n.left.id == bn.params[1] \
-                and len(n.ops) == 1 and isinstance(n.ops[0], ast.Eq) and isinstance(n.comparators[0], ast.Constant):
-            table.add(n.comparators[0].value)
+        if isinstance(n, ast.Call) and any(norm(a) == bn.params[1] for a in n.args):
+            callee = resolve_static_call(model, bn, n)
+            if callee is not None and callee is not bnf and callee not in binders:
+                binders.append(callee)
+    for b in binders:
+        pnames = set(b.params)
+        for n in ast.walk(b.node):
+            if isinstance(n, ast.Compare) and isinstance(n.left, ast.Name) and n.left.id in pnames \
+                    and len(n.ops) == 1 and isinstance(n.ops[0], ast.Eq) and isinstance(n.comparators[0], ast.Constant) \
+                    and isinstance(n.comparators[0].value, str):
+                table.add(n.comparators[0].value)
     if len(table) < 110:
         ctx.broken("bind_native", f"dispatch table has only {len(table)} literal names")
     ctx.binder_table = table
@@ -428,6 +486,50 @@ def gate(ctx, cg, insecure, subclasses):
             if r.kind == "func" and r.target is bnf:
                 ctx.check("C09.gate.binder", f, r.node, f is bn,
                           "bind_native_fun called from outside bind_native")
+
+
+def _deferred_in_gate_table(model, f, call, parents, bn):
+    """A constructor inside `lambda: FuncX()` stored in a module-level dict T: True when every use of T in the package
+    is inside bind_native as `key in T` or as `bind_native_fun(env, T[key](), ..)`; None when the construction is
+    deferred but its callers cannot be told; False when it is not deferred at all."""
+    node = call
+    lam = None
+    while id(node) in parents:
+        node = parents[id(node)]
+        if isinstance(node, (ast.Lambda, ast.FunctionDef)) and node is not f.node:
+            lam = node
+            break
+    if lam is None:
+        return False
+    tbl = None
+    for name, v in f.module.globals_assigned.items():
+        if isinstance(v, ast.Dict) and any(x is lam for x in v.values):
+            tbl = name
+    if tbl is None:
+        return None
+    for g in model.all_funcs(True):
+        gp = {}
+        for n in ast.walk(g.node):
+            for ch in ast.iter_child_nodes(n):
+                gp[id(ch)] = n
+        for n in ast.walk(g.node):
+            if not (isinstance(n, ast.Name) and n.id == tbl and isinstance(n.ctx, ast.Load)):
+                continue
+            par = gp.get(id(n))
+            if g is not bn:
+                return None
+            if isinstance(par, ast.Compare) and isinstance(par.ops[0], (ast.In, ast.NotIn)) and par.comparators[0] is n:
+                continue
+            ok = False
+            if isinstance(par, ast.Subscript) and par.value is n:
+                c1 = gp.get(id(par))
+                if isinstance(c1, ast.Call) and c1.func is par:
+                    c2 = gp.get(id(c1))
+                    ok = isinstance(c2, ast.Call) and isinstance(c2.func, ast.Name) and c2.func.id == "bind_native_fun" \
+                        and len(c2.args) >= 2 and c2.args[1] is c1
+            if not ok:
+                return None
+    return True
 
 
 def _under_not_secure(f, call, parents):
